@@ -42,6 +42,9 @@ def configs_for(chk, prop):
         cfgs = [c for c in cfgs if c["alg"] != "parafac2" or c.get("nn_modes") is not None] + L.nonneg_extra_configs(chk.tier, chk.seed)
     if prop == "C07":
         cfgs = [c for c in cfgs if not c.get("sparsity") and not c.get("mask") and not c.get("sampled")]
+    if prop in ("C08", "C10"):
+        # an arbitrary (non-orthonormal) user start is returned as supplied at budget 0: no canonical-form obligation
+        cfgs = [c for c in cfgs if not c.get("raw_init")]
     if prop in ("C07", "C08"):
         # single-precision data: the tolerances of these two properties are stated for double precision only
         cfgs = [c for c in cfgs if c.get("data_dtype") != "float32"]
